@@ -65,7 +65,7 @@ def run(chk):
                               % (shape, f["step"], f["what"]), dict(fail=f, behaviour=behs[f["behaviour"]][:f["step"] + 1]))
         chk.notes["replayed_op_kinds"] = allkinds
         for need in ("extract", "extract_active", "insert", "mutate_pos", "mutate_vel", "mutate_ts", "rebind_pos", "hand_over",
-                     "activate", "deactivate"):
+                     "share", "activate", "deactivate"):
             if not allkinds.get(need):
                 chk.machinery("vacuous replay: no %s step" % need)
         from checks import runlevel
